@@ -2,6 +2,7 @@ package mon
 
 import (
 	"fmt"
+	"runtime"
 	"unsafe"
 
 	"github.com/cloudwego/gopkg/unsafex"
@@ -34,7 +35,57 @@ func c20Lens(thorough bool) []int {
 	return ls
 }
 
+var c20Sink []byte
+
+//go:noinline
+func c20GrowStack(n int, pad [256]byte) byte {
+	if n == 0 {
+		return pad[0]
+	}
+	pad[n%256]++
+	return c20GrowStack(n-1, pad) + pad[1]
+}
+
+// c20StackString converts a short string that the compiler may keep on the goroutine stack, keeps
+// the result on the heap, forces the stack to move and be overwritten, and looks at the result again.
+// The conversion is called directly (not through a func value) so that escape analysis sees it.
+//
+//go:noinline
+func c20StackString(legacy bool, seed byte) (got, want string) {
+	var arr [24]byte
+	for i := range arr {
+		arr[i] = seed + byte(i)*3
+	}
+	s := string(arr[:20]) // short and, as far as this function is concerned, non-escaping
+	want = string(append([]byte(nil), s...))
+	if legacy {
+		c20Sink = legacyunsafex.StringToBinary(s)
+	} else {
+		c20Sink = unsafex.StringToBinary(s)
+	}
+	var pad [256]byte
+	c20GrowStack(3000, pad) // grows (moves) the stack and overwrites the old frames
+	runtime.GC()
+	return string(c20Sink), want
+}
+
 func monC20(c *drv.Ctx) {
+	c.Stage("stack-strings", 64, true, func(cs *drv.Case) {
+		legacy := cs.Idx%2 == 1
+		done := make(chan [2]string, 1)
+		go func() { // a fresh goroutine starts with a small stack, so the recursion really has to grow it
+			g, w := c20StackString(legacy, byte(cs.Idx))
+			done <- [2]string{g, w}
+		}()
+		r := <-done
+		cs.Desc = M{"variant": convs[cs.Idx%2].name, "string_len": 20}
+		if r[0] != r[1] {
+			cs.Fail("string-to-binary-stale", M{"variant": convs[cs.Idx%2].name}, M{"got": fmt.Sprintf("%q", r[0]), "want": fmt.Sprintf("%q", r[1]), "message": "the bytes obtained from a short (stack-allocated) string went stale after the stack moved: the result no longer shares memory with a live string"})
+		}
+		cs.Count(true, "stack", cs.Idx)
+		cs.C.Obs("stack-string cases", 1)
+	})
+
 	lens := c20Lens(c.Thorough())
 	c.Stage("lengths", int64(len(lens)*len(convs)), true, func(cs *drv.Case) {
 		cv := convs[cs.Idx%int64(len(convs))]
@@ -49,8 +100,19 @@ func monC20(c *drv.Ctx) {
 		for i := range blk {
 			blk[i] = byte(i*13 + 5)
 		}
-		for _, spare := range []int{0, 1, post} {
-			b := blk[pre : pre+l : pre+l+spare]
+		for _, spare := range []int{0, 1, post, -1} {
+			var b []byte
+			if spare >= 0 {
+				b = blk[pre : pre+l : pre+l+spare]
+			} else {
+				// a small window at the start of a huge buffer (a key sliced out of a big read buffer)
+				if l > 64 {
+					continue
+				}
+				huge := make([]byte, 1<<20)
+				copy(huge, blk[pre:pre+l])
+				b = huge[:l]
+			}
 			s := cv.b2s(b)
 			if len(s) != l || s != string(b) {
 				fail("binary-to-string-content", "BinaryToString: len %d, content equal %v", len(s), s == string(b))
